@@ -438,6 +438,16 @@ impl Checker for C14Checker {
                 let expr: ExprRef = serde_json::from_value(args["expr"].clone()).unwrap_or(ExprRef::Pool(0));
                 self.probe_round(s, &tag, &expr);
             }
+            "touch_one" => {
+                // one call only (the rotating getter, or set_mathml): exactly one rule set meets the configuration
+                self.pre_getter = (self.pre_getter + 1) % 3;
+                let op = [Op::Speech, Op::Overview, Op::SetMathml(ExprRef::Pool(2))][self.pre_getter].clone();
+                let r = s.call(&op);
+                self.check_o2(s, &op, &r);
+                if matches!(op, Op::SetMathml(_)) && r.is_ok() {
+                    self.set_under = None;
+                }
+            }
             "settle" => {
                 let op = Op::Speech;
                 let r = s.call(&op);
@@ -483,6 +493,9 @@ pub enum Phase {
     SwitchInto,
     /// the same, then switch back out before the repair
     SwitchBackOut,
+    /// switch into the configuration with the broken file, make ONE call there (only one rule set meets the fault), switch
+    /// back: the other rule sets share tables and file records with the one that failed
+    SwitchTouchBack,
 }
 
 #[derive(Serialize, Deserialize, Clone, Debug, PartialEq)]
@@ -662,6 +675,22 @@ fn case_trace_inner(case: &Case) -> Trace {
             s.push(probe_step("after", e_full));
             s.push(expect_ref_step("after", repair_dir));
         }
+        Phase::SwitchTouchBack => {
+            let other = case.other.clone().unwrap_or_else(|| cfg.clone());
+            s.push(ensure_step(MOUNT_A, cfg, check, true));
+            s.push(probe_step("base", e_full));
+            s.push(clock(1000));
+            s.push(fault);
+            s.push(clock(1000));
+            s.push(ensure_step(MOUNT_A, &other, check, false));
+            s.push(Step::Check { kind: "touch_one".into(), args: json!({}) });
+            s.push(ensure_step(MOUNT_A, cfg, check, false));
+            s.push(probe_step("back", e_full));
+            s.push(expect_equal_step("base", "back"));
+            repair(&mut s, cfg);
+            s.push(probe_step("after", e_full));
+            s.push(expect_ref_step("after", repair_dir));
+        }
     }
     t.sessions = vec![s];
     t
@@ -718,7 +747,7 @@ pub fn enumerate(ctx: &Arc<ExecCtx>, n_configs: usize, all_params: bool) -> Resu
                     if !applicable {
                         continue;
                     }
-                    for phase in [Phase::SwitchInto, Phase::SwitchBackOut] {
+                    for phase in [Phase::SwitchInto, Phase::SwitchBackOut, Phase::SwitchTouchBack] {
                         cases.push(Case { config: cfg.clone(), other: Some(other.clone()), file: file.clone(), kind: kind.clone(), phase, mode: mode.clone() });
                     }
                 }
